@@ -385,6 +385,7 @@ static void meta_clear(enc_out *o) {
 static uint64_t *g_decoy;
 static uint32_t *g_decoy32;
 static uint8_t *g_decoy_dst;
+static int g_prime_meta = 1; /* the purity driver builds its histories itself and switches this off */
 static void decoy_prepare(int codec, long param, const uint64_t *xs, size_t n) {
     g_decoy = realloc(g_decoy, (n + 1) * 8);
     g_decoy32 = realloc(g_decoy32, (n + 1) * 4);
@@ -467,7 +468,7 @@ static void encode_into(int codec, long param, uint8_t *dst, const uint64_t *xs,
     case C_RLE_HDR: {
         varintRLEMeta m;
         memset(&m, 0x5A, sizeof(m));
-        (void)(codec == C_RLE ? varintRLEEncode(g_decoy_dst, g_decoy, n, &m)
+        if (g_prime_meta) (void)(codec == C_RLE ? varintRLEEncode(g_decoy_dst, g_decoy, n, &m)
                               : varintRLEEncodeWithHeader(g_decoy_dst, g_decoy, n, &m));
         o->written = codec == C_RLE ? varintRLEEncode(dst, xs, n, &m)
                                     : varintRLEEncodeWithHeader(dst, xs, n, &m);
@@ -481,7 +482,7 @@ static void encode_into(int codec, long param, uint8_t *dst, const uint64_t *xs,
     case C_EDELTA: {
         varintEliasMeta m;
         memset(&m, 0x5A, sizeof(m));
-        (void)(codec == C_GAMMA ? varintEliasGammaEncodeArray(g_decoy_dst, g_decoy, n, &m)
+        if (g_prime_meta) (void)(codec == C_GAMMA ? varintEliasGammaEncodeArray(g_decoy_dst, g_decoy, n, &m)
                                 : varintEliasDeltaEncodeArray(g_decoy_dst, g_decoy, n, &m));
         o->written = codec == C_GAMMA
                          ? varintEliasGammaEncodeArray(dst, xs, n, &m)
@@ -499,7 +500,7 @@ static void encode_into(int codec, long param, uint8_t *dst, const uint64_t *xs,
     case C_BPD64: {
         varintBP128Meta m;
         memset(&m, 0x5A, sizeof(m));
-        (void)(codec == C_BP32    ? varintBP128Encode32(g_decoy_dst, g_decoy32, n, &m)
+        if (g_prime_meta) (void)(codec == C_BP32    ? varintBP128Encode32(g_decoy_dst, g_decoy32, n, &m)
                : codec == C_BP64  ? varintBP128Encode64(g_decoy_dst, g_decoy, n, &m)
                : codec == C_BPD32 ? varintBP128DeltaEncode32(g_decoy_dst, g_decoy32, n, &m)
                                   : varintBP128DeltaEncode64(g_decoy_dst, g_decoy, n, &m));
@@ -519,7 +520,7 @@ static void encode_into(int codec, long param, uint8_t *dst, const uint64_t *xs,
     case C_ADAPTIVE: {
         varintAdaptiveMeta m;
         memset(&m, 0, sizeof(m));
-        (void)(param < 0 ? varintAdaptiveEncode(g_decoy_dst, g_decoy, n, &m)
+        if (g_prime_meta) (void)(param < 0 ? varintAdaptiveEncode(g_decoy_dst, g_decoy, n, &m)
                          : varintAdaptiveEncodeWith(g_decoy_dst, g_decoy, n, (varintAdaptiveEncodingType)param, &m));
         o->written = param < 0 ? varintAdaptiveEncode(dst, xs, n, &m)
                                : varintAdaptiveEncodeWith(
